@@ -57,10 +57,19 @@ def make_modes(ctx):
     m.append(Mode("compress-gid", [], [F("a.txt", "a.txt.xz", small[2], small[2])], gid=True))
     m.append(Mode("decompress-force-existing", ["-df"], [F("a.xz", "a", comp, plain)], direction="d", force=True, pre_target=True))
     m.append(Mode("decompress-keep", ["-dk"], [F("a.xz", "a", comp, plain)], direction="d", keep=True))
+    # several files with mixed outcomes in ONE invocation (per-file state must be reset): a file ending in a sparse
+    # tail, then garbage, then a file whose size is an exact multiple of the 8 KiB I/O buffer
+    tail_sparse = gen_text(rng, 5000) + bytes(8192 - 5000) + bytes(2 * 8192)
+    exact = gen_text(rng, 3 * 8192)
+    m.append(Mode("decompress-multi-mixed", ["-d"], [
+        F("m1.xz", "m1", xzc(tail_sparse, preset=1), tail_sparse),
+        dict(F("m2.xz", "m2", plain[:9000], plain), valid=False, init_ok=False),
+        F("m3.xz", "m3", xzc(exact, preset=1), exact)], direction="d"))
+    m.append(Mode("compress-exact-8k", [], [F("e.txt", "e.txt.xz", exact, exact)]))
     if not quick:
-        big = gen_text(rng, rng.randrange(900000, 1100000))
+        big = gen_text(rng, rng.randrange(550000, 650000))
         mid = gen_text(rng, 300000)
-        m.append(Mode("compress-T4", ["--block-size=200KiB"], [F("b.txt", "b.txt.xz", big, big)], threads="-T4", lifted=True))
+        m.append(Mode("compress-T4", ["--block-size=128KiB"], [F("b.txt", "b.txt.xz", big, big)], threads="-T4", lifted=True))
         m.append(Mode("compress-T0-default", [], [F("a.txt", "a.txt.xz", plain, plain)], threads="-T0", lifted=True))
         mtc = xzc(mid[:100000]) + xzc(mid[100000:200000]) + xzc(mid[200000:])
         m.append(Mode("decompress-T4", ["-d"], [F("m.xz", "m", mtc, mid)], direction="d", threads="-T4", lifted=True))
@@ -197,6 +206,8 @@ def direct_oracle(mode, plan, res, ref_events):
             bad.append("%s: a skipped source was touched" % f["src"])
         if not src_ok:
             any_removed = True
+        if not f.get("valid", mode.valid) and not src_ok:
+            bad.append("%s: invalid input, yet the source was removed" % f["src"])
         # R5: an existing target is never overwritten or removed without -f
         if mode.pre_target and not mode.force and f["dst"]:
             if o["preL"] != "1" or not src_ok or (not crashed and rc in (0, 2)):
@@ -226,6 +237,9 @@ def direct_oracle(mode, plan, res, ref_events):
             bad.append("an injected I/O error was answered with exit status %s" % rc)
         if len(mode.files) == 1 and any_removed:
             bad.append("source removed although an I/O call on the pair failed")
+    some_invalid = any(not f.get("valid", mode.valid) for f in mode.files)
+    if some_invalid and not crashed and len(mode.files) > 1 and not signalled and not inj and rc in (0, 2):
+        bad.append("a file of the run is invalid but the exit status is %s" % rc)
     if not mode.valid and not crashed:
         if rc in (0, 2) or any_removed:
             bad.append("invalid input: exit status %s, source removed: %s" % (rc, any_removed))
@@ -251,7 +265,7 @@ def model_lines(mode, plan, ref, observed_events):
     layouts = [()]
     sig_op = None
     if mode.lifted:
-        sched = [L.derive_ops(evs, mode) for evs in observed_events]
+        sched = [L.derive_ops(evs, mode, mode.files[i]) for i, evs in enumerate(observed_events)]
         # a file that was never started in this run still needs a spec: take the reference
         sched = [s if observed_events[i] else ref["sched"][i] for i, s in enumerate(sched)]
     else:
@@ -259,7 +273,7 @@ def model_lines(mode, plan, ref, observed_events):
     if plan.sig:
         # which request of which file was in progress when the signal arrived (by the index arithmetic of this run)
         for i, evs in enumerate(observed_events):
-            ops, owner, _ = L.derive_ops(evs, mode)
+            ops, owner, _ = L.derive_ops(evs, mode, mode.files[i])
             if plan.sig[0] in owner:
                 sig_op = (i, locate(ops, owner[plan.sig[0]], sched[i][0]))
         if sig_op is not None:
@@ -329,16 +343,16 @@ def prepare(ctx):
 def reference(xz, so, mode):
     res = L.run_case(xz, so, mode, Plan())
     evs = L.canon(res, mode)
-    sched = [L.derive_ops(e, mode) for e in evs]
-    if mode.direction == "d" and len(mode.files) == 1:
+    sched = [L.derive_ops(e, mode, mode.files[i]) for i, e in enumerate(evs)]
+    for fi in range(len(mode.files) if mode.direction == "d" else 0):
         # Sparse blocks are invisible where they are requested (io_write only counts them). A run whose fstat(target)
         # fails has sparse output disabled and shows every request in its true place; all-zero full buffers of the
         # known plain text are then marked as sparse requests.
-        kf = next((e["k"] for e in evs[0] if e["op"] == "fstat" and e["role"] == "DST"), None)
+        kf = next((e["k"] for e in evs[fi] if e["op"] == "fstat" and e["role"] == "DST"), None)
         if kf is not None:
             r2 = L.run_case(xz, so, mode, Plan(faults={kf: ("E", 5)}))
-            ops, owner, _ = L.derive_ops(L.canon(r2, mode)[0], mode)
-            plain, off, out = mode.files[0]["plain"], 0, []
+            ops, owner, _ = L.derive_ops(L.canon(r2, mode)[fi], mode, mode.files[fi])
+            plain, off, out = mode.files[fi]["plain"], 0, []
             for o in ops:
                 if o[0] == "W":
                     n = int(o[1:])
@@ -346,7 +360,7 @@ def reference(xz, so, mode):
                         o = "Z%d" % n
                     off += n
                 out.append(o)
-            sched = [(out, sched[0][1], sched[0][2])]
+            sched[fi] = (out, sched[fi][1], sched[fi][2])
     return {"res": res, "events": evs, "sched": sched}
 
 
